@@ -29,15 +29,15 @@ def setRole (e : Env) (s : State) (a : Addr) (role : Nat) (val : Option ValAddr)
   | some n => s.setNode e { n with role := role, validator := val.getD n.validator }
 
 /-- `verifySuperStorageNodes(valAddr, accAddr, beforeDelegationRemoved)` -/
-def verifySuper (e : Env) (s : State) (val : ValAddr) (acc : Option Addr) (beforeRemoved : Bool) : TxM State := do
+def verifySuper (e : Env) (s : State) (g : Dec) (val : ValAddr) (acc : Option Addr) (beforeRemoved : Bool) : TxM (State × Dec) := do
   let dels := s.staking.delegations.filter (·.val = val)
   let sharesToSub : Dec ← (match acc with
     | some a =>
-      if s.global ≠ 0 then
+      if g ≠ 0 then
         match s.staking.delegation a val with
         | none => throw "nil pointer dereference"   -- Delegation() returned nil
         | some d =>
-          if s.global > d.shares then pure (s.global - d.shares)
+          if g > d.shares then pure (g - d.shares)
           else if beforeRemoved then pure d.shares
           else pure 0
       else pure 0
@@ -66,20 +66,19 @@ def verifySuper (e : Env) (s : State) (val : ValAddr) (acc : Option Addr) (befor
             else
               loop t (if node.role = 1 then setRole e s node.creator 0 none else s)
   let s ← loop dels s
-  pure (if s.global ≠ 0 then { s with global := 0 } else s)
+  pure (s, 0)   -- `if !sharesBeforeModified.IsZero() { sharesBeforeModified = 0 }`
 
 /-- `msgServer.Delegate`. Returns the value of the package variable at the point where the
     transaction ended (kept even when the transaction fails) and the transaction result. -/
-def stakeDelegate (e : Env) (s : State) (del : Addr) (val : ValAddr) (amt : Int) : Dec × TxM State :=
+def stakeDelegate (e : Env) (s : State) (g0 : Dec) (del : Addr) (val : ValAddr) (amt : Int) : Dec × TxM State :=
   match s.staking.validator val with
-  | none => (s.global, throw "validator not found")
+  | none => (g0, throw "validator not found")
   | some v =>
     let existing := s.staking.delegation del val
     -- BeforeDelegationSharesModified / BeforeDelegationCreated
     let g := match existing with
       | some d => d.shares
-      | none => s.global
-    let s := { s with global := g }
+      | none => g0
     let pool := if v.status = 3 then e.modBonded else e.modNotBonded
     match s.send del pool amt with
     | .error m => (g, throw m)
@@ -91,35 +90,34 @@ def stakeDelegate (e : Env) (s : State) (del : Addr) (val : ValAddr) (amt : Int)
       let d' : DelegationV := { del := del, val := val, shares := (existing.map (·.shares)).getD 0 + issued }
       let s := { s with staking := { validators := setValidator s.staking.validators v',
                                       delegations := setDelegation e s.staking.delegations d' } }
-      match verifySuper e s val (some del) false with
+      match verifySuper e s g val (some del) false with
       | .error m => (g, throw m)
-      | .ok s' => (s'.global, pure s')
+      | .ok (s', g') => (g', pure s')
 
 /-- `msgServer.Undelegate` -/
-def stakeUndelegate (e : Env) (s : State) (del : Addr) (val : ValAddr) (amt : Int) : Dec × TxM State :=
+def stakeUndelegate (e : Env) (s : State) (g0 : Dec) (del : Addr) (val : ValAddr) (amt : Int) : Dec × TxM State :=
   match s.staking.validator val, s.staking.delegation del val with
-  | none, _ => (s.global, throw "validator not found")
-  | _, none => (s.global, throw "no delegation")
+  | none, _ => (g0, throw "validator not found")
+  | _, none => (g0, throw "no delegation")
   | some v, some d =>
-    if v.tokens = 0 then (s.global, throw "insufficient shares") else
+    if v.tokens = 0 then (g0, throw "insufficient shares") else
     let shares0 := Dec.quoInt (Dec.mulInt v.shares amt) v.tokens
-    if shares0 > d.shares then (s.global, throw "invalid shares amount") else
+    if shares0 > d.shares then (g0, throw "invalid shares amount") else
     let shares := shares0
     -- Unbond: BeforeDelegationSharesModified
-    let g := d.shares
-    let s := { s with global := g }
-    let d' := { d with shares := d.shares - shares }
-    let r : TxM State :=
-      if d'.shares = 0 then do
+    let g : Dec := d.shares
+    let d' : DelegationV := { d with shares := d.shares - shares }
+    let r : TxM (State × Dec) :=
+      if d'.shares = (0 : Int) then do
         -- RemoveDelegation: BeforeDelegationRemoved hook sees the old record
-        let s ← verifySuper e s val (some del) true
-        pure { s with staking := { s.staking with delegations := s.staking.delegations.filter (fun x => !(x.del = del ∧ x.val = val)) } }
+        let (s, g') ← verifySuper e s g val (some del) true
+        pure ({ s with staking := { s.staking with delegations := s.staking.delegations.filter (fun x => !(x.del = del ∧ x.val = val)) } }, g')
       else do
         let s := { s with staking := { s.staking with delegations := setDelegation e s.staking.delegations d' } }
-        verifySuper e s val (some del) false
+        verifySuper e s g val (some del) false
     match r with
     | .error m => (g, throw m)
-    | .ok s =>
+    | .ok (s, g') =>
       -- RemoveValidatorTokensAndShares
       let remaining := v.shares - shares
       let issuedTokens := if remaining = 0 then v.tokens else Dec.truncate (Dec.quo (Dec.mulInt shares v.tokens) v.shares)
@@ -127,8 +125,8 @@ def stakeUndelegate (e : Env) (s : State) (del : Addr) (val : ValAddr) (amt : In
       let s := { s with staking := { s.staking with validators := setValidator s.staking.validators v' } }
       if v.status = 3 then
         match s.send e.modBonded e.modNotBonded issuedTokens with
-        | .error m => (s.global, throw m)
-        | .ok s' => (s'.global, pure s')
-      else (s.global, pure s)
+        | .error m => (g', throw m)
+        | .ok s' => (g', pure s')
+      else (g', pure s)
 
 end SaoVerif
